@@ -1229,16 +1229,27 @@ fn replay_inner(r: &Value) -> bool {
 
 struct Bounds {
     fam: Fam,
+    /// local operations are stamped with Lamport times <= t_max (deliveries may push a clock beyond)
     t_max: u64,
+    /// R2 = values reachable by <= depth_pairs events
     depth_pairs: usize,
+    /// R3 = values reachable by <= depth_triples events ...
     depth_triples: usize,
+    /// ... plus those reachable by <= depth_triples_ext events all of whose stamps have time <= t_ext
+    depth_triples_ext: usize,
+    t_ext: u64,
 }
 
 fn bounds(tier: Tier) -> Vec<Bounds> {
-    // quick: R2 = depth <= 3, R3 = depth <= 2; thorough: R2 = depth <= 4, R3 = depth <= 3.
-    // Local operations are stamped with Lamport times <= 3 (deliveries may push a clock beyond).
     FAMS.iter()
-        .map(|f| Bounds { fam: *f, t_max: 3, depth_pairs: tier.pick(3, 4), depth_triples: tier.pick(2, 3) })
+        .map(|f| Bounds {
+            fam: *f,
+            t_max: 3,
+            depth_pairs: tier.pick(3, 4),
+            depth_triples: 2,
+            depth_triples_ext: tier.pick(2, 3),
+            t_ext: 2,
+        })
         .collect()
 }
 
@@ -1334,6 +1345,7 @@ fn main() {
             "operations": alpha.iter().map(|o| o.name()).collect::<Vec<_>>(),
             "max_lamport_time_of_local_ops": b.t_max,
             "depth_pairs": b.depth_pairs, "depth_triples": b.depth_triples,
+            "depth_triples_for_values_with_stamp_times_up_to": {"depth": b.depth_triples_ext, "time": b.t_ext},
             "worlds": s.worlds, "transitions": s.transitions,
             "new_values": found.len() - before,
         }));
@@ -1349,9 +1361,20 @@ fn main() {
     // deterministic order: family, depth, canonical key
     let mut all: Vec<&Found> = found.values().collect();
     all.sort_by(|x, y| (x.fam, x.depth, &x.val.key).cmp(&(y.fam, y.depth, &y.val.key)));
-    let depth3: HashMap<Fam, usize> = bnds.iter().map(|b| (b.fam, b.depth_triples)).collect();
+    let bound_of: HashMap<Fam, &Bounds> = bnds.iter().map(|b| (b.fam, b)).collect();
+    let max_time = |v: &RV| {
+        let s = stamps_of(v);
+        s.inner.iter().map(|(t, _)| t.0).chain([s.outer.0]).max().unwrap_or(0)
+    };
     let r2: Vec<&Found> = all.clone();
-    let r3: Vec<&Found> = all.iter().copied().filter(|f| f.depth <= depth3[&f.fam]).collect();
+    let r3: Vec<&Found> = all
+        .iter()
+        .copied()
+        .filter(|f| {
+            let b = bound_of[&f.fam];
+            f.depth <= b.depth_triples || (f.depth <= b.depth_triples_ext && max_time(&f.val.rv) <= b.t_ext)
+        })
+        .collect();
     let n2 = r2.len();
     let n3 = r3.len();
     let by_kind = |set: &[&Found]| {
